@@ -18,6 +18,8 @@ REGISTRY = {
     'C06': ('checks.layout', 'check_c06', 'model_checking'),
     'C10': ('checks.limits', 'check_c10', 'other'),
     'C11': ('checks.limits', 'check_c11', 'other'),
+    'C13': ('checks.walk', 'check_c13', 'model_checking'),
+    'C14': ('checks.walk', 'check_c14', 'fault_enumeration'),
     'C15': ('checks.registry', 'check_c15', 'model_checking'),
     'C18': ('checks.config', 'check_c18', 'model_checking'),
     'C19': ('checks.history', 'check_c19', 'exploration'),
